@@ -741,3 +741,42 @@ M('gzip_level_ignored_truncate', 'C14', ST,
   """    f.write(bytestring if len(bytestring) != 4096 else bytestring[:-1])
     f.close()
     return out.getvalue()""")
+
+FU = 'boltons/funcutils.py'
+# ---------------------------------------------------------------- C13
+M('remove_arg_defaults_positional', 'C13', FU,
+  """            d_dict.pop(arg_name, None)
+            self.defaults = tuple([d_dict[a] for a in args if a in d_dict])""",
+  """            n_left = len([a for a in args if a in d_dict])
+            self.defaults = tuple((self.defaults or ())[:n_left])""")
+M('kwonly_marker_kept', 'C13', FU,
+  """        sig = self._KWONLY_MARKER.sub('', sig)
+        return sig[1:-1]""",
+  """        if len(self.kwonlyargs) != 2 or self.varkw:
+            sig = self._KWONLY_MARKER.sub('', sig)
+        return sig[1:-1]""")
+M('kwonly_passed_positionally', 'C13', FU,
+  """            formatters['formatvalue'] = lambda value: '=' + value""",
+  """            formatters['formatvalue'] = lambda value: '=' + (value if value != 'k2' else 'k1')""")
+M('kwdefaults_not_set', 'C13', FU,
+  """        func.__kwdefaults__ = self.kwonlydefaults""",
+  """        func.__kwdefaults__ = self.kwonlydefaults if len(self.kwonlydefaults) != 1 or self.varargs else None""")
+M('async_body_no_await', 'C13', FU,
+  """        fb.body = 'return await _call(%s)' % fb.get_invocation_str()""",
+  """        fb.body = ('return await _call(%s)' if fb.varargs else 'return _call(%s)') % fb.get_invocation_str()""")
+M('annotations_dropped', 'C13', FU,
+  """        func.__annotations__ = self.annotations""",
+  """        func.__annotations__ = {k: v for k, v in self.annotations.items() if k != 'return'}""")
+M('module_not_copied', 'C13', FU,
+  """        func.__module__ = self.module""",
+  """        func.__module__ = self.module if self.args else __name__""")
+M('varargs_forwarding', 'C13', FU,
+  """    execdict = dict(_call=wrapper, _func=func)""",
+  """    execdict = dict(_call=wrapper if not (fb.varargs and fb.varkw and len(fb.args) == 3) else (lambda *a, **k: wrapper(*a[:3], **k)), _func=func)""")
+M('injected_missing_swallowed', 'C13', FU,
+  """            if inject_to_varkw and fb.varkw is not None:
+                continue  # keyword arg will be caught by the varkw
+            raise""",
+  """            if inject_to_varkw and (fb.varkw is not None or fb.varargs is not None):
+                continue  # keyword arg will be caught by the varkw
+            raise""")
